@@ -146,24 +146,18 @@ def check(ctx):
         ctx.require(R4, "crt-digest" in opts(dg) and any(x.get("item") == "tacd::DEFAULT_CRT_DIGEST" for x in dg.consts) and "crt-signature-alg" not in opts(dg), c_.where(),
                     "digest = --crt-digest or DEFAULT_CRT_DIGEST", ["tacd::init", "digest"])
     gav = prog.must_body("tacd::get_acme_value")
-    ret = origins(gav, {"l": 0, "p": []}, through=True)
-    ctx.require(R4, ret.has_leaf("param:2") and ret.has_leaf("param:3") and any(x.is_("tacd::read_line") for x in ret.calls), "%s:%s" % (gav.file, gav.line),
-                "get_acme_value = the option's value, else read_line(the file option or stdin)", ["tacd::get_acme_value", "sources"])
-    rl = prog.must_body("tacd::read_line")
-    sti = rl.calls_to("std::io::stdio::stdin")
-    ctx.floor(R4, "stdin() call in read_line", len(sti), 1)
-    for c_ in rl.calls + [x for k, b in prog.bodies.items() if b.crate == "tacd" for x in b.calls if b.key != rl.key]:
-        if c_.is_("std::io::buffered::bufreader::BufReader::new", "std::io::buffered::bufreader::BufReader::with_capacity", "std::io::Stdin::lock", "std::io::stdio::Stdin::lock") and c_.bb in c_.body.live_blocks():
-            sl = arg_origins(c_, len(c_.args) - 1)
-            from_stdin = any(x.is_("std::io::stdio::stdin") for x in sl.calls) or sl.via_any("std::io::stdio::stdin") or any("Stdin" in t for t in c_.gargs) or any("dyn std::io::Read" in t or "dyn core::" in t for t in c_.gargs)
-            if c_.is_("std::io::Stdin::lock", "std::io::stdio::Stdin::lock"):
-                continue
-            ctx.require(R4, not from_stdin, c_.where(), "standard input is not wrapped in a function-local BufReader (its read-ahead would swallow the next value given on stdin)", ["tacd::read_line", "local-bufreader"])
-    reads = rl.calls_to("std::io::stdio::Stdin::read_line")
-    ctx.require(R4, bool(reads), "%s:%s" % (rl.file, rl.line), "a stdin value is one line read with Stdin::read_line (shared, line-buffered handle)", ["tacd::read_line", "stdin-read-line"])
-    ret = origins(rl, {"l": 0, "p": []})
-    ctx.require(R4, ret.via_any("core::str::<impl str>::trim"), "%s:%s" % (rl.file, rl.line), "the value is trimmed (no trailing newline)", ["tacd::read_line", "trim"])
-
+    # evaluation-first: get_acme_value interpreted for the three sources of a value (option given / file option given / neither):
+    # what it returns and what it reads — the inline value; the whole named file, trimmed; ONE line of the shared stdin handle, trimmed
+    # (a BufReader created around stdin here would read ahead and swallow the next value)
+    av = acme_value_table(prog)
+    if av is not None:
+        for (inline, file_), got, want in av:
+            ctx.require(R4, got == want, "%s:%s" % (gav.file, gav.line), "value option %s, file option %s: get_acme_value -> %s (expected %s)" % ("given" if inline else "absent", "given" if file_ else "absent", got, want),
+                        ["tacd::get_acme_value", "evaluated", str(inline), str(file_)])
+    structural_value_rules(ctx, R4, gav) if av is None else None
+    ret = None
+    if False:
+        ret = origins(gav, {"l": 0, "p": []}, through=True)
     # --crt-signature-alg / --crt-digest: every documented name selects its key type / digest (a name that no longer parses makes
     # tacd exit before serving anything for that key type)
     from .crypto_tables import parse_tables
@@ -300,3 +294,93 @@ def tls_version_rule(ctx, rid):
     narrow = [c for c in st.calls if c.bb in st.live_blocks() and (c.name or "").startswith("openssl::ssl::SslContextBuilder::") and c.name.rsplit("::", 1)[1] in VERSION_NARROWING]
     ctx.require(rid, not narrow, narrow[0].where() if narrow else "%s:%s" % (st.file, st.line), "no protocol-version / cipher narrowing on top of the profile (%s)" % [c.name.rsplit("::", 1)[1] for c in narrow],
                 [START, "tls-narrowed"])
+
+
+def acme_value_table(prog):
+    from ..absint import NONE, UNIT, Val, _Slot, _is_place, _resolve_place, ok, run, some, vint, vstr
+    gav = prog.body("tacd::get_acme_value")
+    if gav is None:
+        return None
+    rows = []
+    for inline in (True, False):
+        for file_ in (True, False):
+            ev = []
+
+            def put(ref, text):
+                if ref.k == "ref" and _is_place(ref.extra):
+                    _Slot(*_resolve_place(ref.extra, {}))["slot"] = vstr(text)
+                    return True
+                return False
+
+            def model(cs, args, inline=inline, file_=file_, ev=ev):
+                n = cs.name or ""
+                d = [a.deref() for a in args]
+                if n.endswith("ArgMatches::get_one") and len(d) > 1 and d[1].k == "str":
+                    if d[1].v == "OPT":
+                        return some(Val("ref", vstr("INLINE VALUE"))) if inline else NONE
+                    if d[1].v == "OPT_FILE":
+                        return some(Val("ref", vstr("/path/to/file"))) if file_ else NONE
+                    return None
+                if (cs.fn or "").startswith("core::cmp::PartialOrd::") and d and d[0].k == "variant" and (d[0].extra or "").startswith("log::"):
+                    from ..absint import vbool
+                    return vbool(False)                                  # logging off: `debug!` does not run
+                if n == "std::fs::File::open" and d:
+                    ev.append(("open", d[0].v if d[0].k == "str" else repr(d[0])))
+                    return ok(Val("unknown", "FILE"))
+                if n.endswith("::read_to_string") and len(args) > 1:
+                    ev.append(("read_to_string", repr(d[0])))
+                    return ok(vint(20)) if put(args[1], "  file content\nsecond line \n") else None
+                if n == "std::io::stdio::stdin":
+                    ev.append(("stdin",))
+                    return Val("unknown", "STDIN")
+                if n == "std::io::stdio::Stdin::read_line" and len(args) > 1:
+                    ev.append(("stdin.read_line",))
+                    return ok(vint(12)) if put(args[1], " stdin line \n") else None
+                if "BufReader" in n and n.endswith(("::new", "::with_capacity")):
+                    ev.append(("bufreader", repr(d[-1]) if d else ""))
+                    return None
+                if n.endswith("::read_line") and len(args) > 1:          # BufRead::read_line on some wrapper
+                    ev.append(("other.read_line", repr(d[0])))
+                    return ok(vint(12)) if put(args[1], " stdin line \n") else None
+                return None
+            try:
+                r = run(gav, {1: Val("ref", Val("unknown", "ARGS")), 2: Val("ref", vstr("OPT")), 3: Val("ref", vstr("OPT_FILE"))}, model, max_steps=100000,
+                        follow=lambda cs: (cs.name or "").startswith("tacd::"))
+            except Exception:
+                return None
+            rv = r.ret.deref() if r.kind == "return" and r.ret is not None else None
+            if rv is None or rv.k != "adt" or not rv.extra or rv.extra[1] != "Ok" or not rv.v or rv.v[0].deref().k != "str":
+                return None
+            got = (rv.v[0].deref().v, [e for e in ev if e[0] != "stdin"])
+            if inline:
+                want = ("INLINE VALUE", [])
+            elif file_:
+                want = ("file content\nsecond line", [("open", "/path/to/file"), ("read_to_string", "?FILE")])
+            else:
+                want = ("stdin line", [("stdin.read_line",)])
+            rows.append(((inline, file_), got, want))
+    return rows
+
+
+
+
+def structural_value_rules(ctx, R4, gav):
+    prog = ctx.prog
+    ret = origins(gav, {"l": 0, "p": []}, through=True)
+    ctx.require(R4, ret.has_leaf("param:2") and ret.has_leaf("param:3") and any(x.is_("tacd::read_line") for x in ret.calls), "%s:%s" % (gav.file, gav.line),
+                "get_acme_value = the option's value, else read_line(the file option or stdin)", ["tacd::get_acme_value", "sources"])
+    rl = prog.must_body("tacd::read_line")
+    sti = rl.calls_to("std::io::stdio::stdin")
+    ctx.floor(R4, "stdin() call in read_line", len(sti), 1)
+    for c_ in rl.calls + [x for k, b in prog.bodies.items() if b.crate == "tacd" for x in b.calls if b.key != rl.key]:
+        if c_.is_("std::io::buffered::bufreader::BufReader::new", "std::io::buffered::bufreader::BufReader::with_capacity", "std::io::Stdin::lock", "std::io::stdio::Stdin::lock") and c_.bb in c_.body.live_blocks():
+            sl = arg_origins(c_, len(c_.args) - 1)
+            from_stdin = any(x.is_("std::io::stdio::stdin") for x in sl.calls) or sl.via_any("std::io::stdio::stdin") or any("Stdin" in t for t in c_.gargs) or any("dyn std::io::Read" in t or "dyn core::" in t for t in c_.gargs)
+            if c_.is_("std::io::Stdin::lock", "std::io::stdio::Stdin::lock"):
+                continue
+            ctx.require(R4, not from_stdin, c_.where(), "standard input is not wrapped in a function-local BufReader (its read-ahead would swallow the next value given on stdin)", ["tacd::read_line", "local-bufreader"])
+    reads = rl.calls_to("std::io::stdio::Stdin::read_line")
+    ctx.require(R4, bool(reads), "%s:%s" % (rl.file, rl.line), "a stdin value is one line read with Stdin::read_line (shared, line-buffered handle)", ["tacd::read_line", "stdin-read-line"])
+    ret = origins(rl, {"l": 0, "p": []})
+    ctx.require(R4, ret.via_any("core::str::<impl str>::trim"), "%s:%s" % (rl.file, rl.line), "the value is trimmed (no trailing newline)", ["tacd::read_line", "trim"])
+
